@@ -207,6 +207,29 @@ fn run_relational<T: nuts_rs::verif::Transformation<CpuMath<QuadLogp>>>(
             return Err(format!("{kind:?}: forward then backward step does not return the start: {f} {u:?} -> {w:?}"));
         }
     }
+    // The energy is additive along a trajectory: the change over the second step of a two-step trajectory is the change
+    // over the same step taken as the first step of a fresh trajectory (for the Microcanonical kind the kinetic part is an
+    // accumulated quantity, so this is not automatic).
+    if let LeapfrogResult::Ok(out2) = ham.leapfrog(&mut math, &out, dir, 1.0, e0, 1e300, &mut Null) {
+        let o1 = verif::point_dump(&mut math, &out);
+        let o2 = verif::point_dump(&mut math, &out2);
+        let x1 = jv(&o1["x"]);
+        if let Ok(mut fresh) = ham.init_state(&mut math, &x1) {
+            verif::point_set_velocity(&mut math, &mut fresh, &jv(&o1["v"]));
+            ham.initialize_trajectory(&mut math, &mut fresh, false, &mut rng).map_err(|e| format!("{e}"))?;
+            let f1 = verif::point_dump(&mut math, &fresh);
+            if let LeapfrogResult::Ok(fresh2) = ham.leapfrog(&mut math, &fresh, dir, 1.0, fresh.point_energy(), 1e300, &mut Null) {
+                let f2 = verif::point_dump(&mut math, &fresh2);
+                let en = |d: &J| d["energy"].as_f64().unwrap_or(f64::NAN);
+                let (d_traj, d_fresh) = (en(&o2) - en(&o1), en(&f2) - en(&f1));
+                let scale = 1.0 + en(&o1).abs() + en(&o2).abs() + en(&f1).abs() + en(&f2).abs();
+                if d_traj.is_finite() && d_fresh.is_finite() && (d_traj - d_fresh).abs() > 1e-9 * scale {
+                    return Err(format!(
+                        "{kind:?}: energy is not additive along the trajectory: second step changes it by {d_traj}, the same step from a fresh start by {d_fresh}"));
+                }
+            }
+        }
+    }
     if standard_normal && kind == KineticEnergyKind::ExactNormal {
         let de = verif::point_dump(&mut math, &out)["energy"].as_f64().unwrap() - a["energy"].as_f64().unwrap();
         if de.abs() > 1e-12 * (1.0 + a["energy"].as_f64().unwrap().abs()) {
